@@ -180,6 +180,8 @@ class C02(Prop):
                 ks = [b"k%d" % i for i in range(n)]
                 ks[min(n - 1, rng.choice([n - 1, 512, n // 2 + 300, 520]))] = rng.choice([b"bad key", b"", b"x\r\ny", "é" * 3])
             a = [E(ks)]
+            if rng.random() < 0.12:
+                a = [{"$iter": [E(x) for x in ks]}]      # a one-shot iterator (also an empty one) of keys
             if m == "delete_many" and nr is not None:
                 k["noreply"] = nr
         elif m == "delete":
@@ -333,6 +335,9 @@ class C02(Prop):
         if rec is None:
             return out
         args, kwargs = res.extra["args"][pi]
+        # a one-shot iterator argument has been used up by the call: judge against the list it was built from
+        args = [[codec.dec(x) for x in ja["$iter"]] if isinstance(ja, dict) and "$iter" in ja else a
+                for a, ja in zip(args, scn["steps"][pi]["a"])]
         node = res.world.nodes[0]
         stack = scn["world"]["stack"]
         sent = rec.sent
